@@ -324,6 +324,12 @@ func (c *Ctx) Finish() int {
 	}
 	if len(confirmed) > 0 {
 		os.MkdirAll(filepath.Join(VerifDir, "replays"), 0o755)
+		if os.Getenv("VERIF_ALLSIGS") != "" {
+			for _, r := range confirmed {
+				b, _ := json.Marshal(map[string]string{"status": "known", "property": c.Property, "signature": r.Signature, "what": r.What})
+				fmt.Println("SIG " + string(b))
+			}
+		}
 		for i, r := range confirmed {
 			if i >= 25 {
 				fmt.Printf("... %d further distinct violation signatures not written\n", len(confirmed)-i)
